@@ -337,6 +337,14 @@ def pickle_rules(model, R):
     swapped_both = (bool(ids) and [src(t) for t in ids[0].targets[0].elts] == ['yid', 'xid'] and uses == {'X': 'xid', 'Y': 'yid'})
     # ids only name the registry entry: swapping both unpack and use is equivalent; swapping one is benign too (ids are cache keys)
     R.check(bool(ids), 'PICKLE', new, ids[0] if ids else new.node, 'Relation.__new__: unpickle path unpacks the two class ids', 'xid, yid = _ids')
+    # bitsets.meta.bitset(name, members, id_, base, list_, tuple_)  [axiom A9: positional signature of bitsets 0.8.4]
+    for s in stmts(new.body):
+        if (isinstance(s, ast.Assign) and isinstance(s.targets[0], ast.Name) and s.targets[0].id in ('X', 'Y') and isinstance(s.value, ast.Call)
+                and (chain(s.value.func) or [''])[-2:] == ['meta', 'bitset'] and not s.value.keywords and len(s.value.args) == 6):
+            tail = [src(a) for a in s.value.args[3:]]
+            R.decided(tail == ['Vector', 'None', 'Vectors'], 'PICKLE', new, s, f'Relation.__new__: {s.targets[0].id} rebuilt with the same base and series classes as a fresh relation',
+                      'bitsets.meta.bitset(name, members, id, Vector, None, Vectors)', ', '.join(tail),
+                      extra={'consequence': 'in a process where the class is not yet registered the bit-set class is rebuilt with the wrong list/tuple series: unpickling fails or yields vectors without the derivation closures'})
     vr = model.func('matrices.Vectors.__reduce__')
     R.returns(vr, '(self.relation, (self.relation_index,))', 'PICKLE', 'Vectors pickle as relation(index)')
     rel = model.cls('matrices.Relation')
